@@ -80,6 +80,27 @@ def register(reg):
     add("Tuple(S32,ByteArray(U8))", se.Tuple(se.S32, se.ByteArray(se.U8)), "Tuple[Int,Bytes]",
         "-2147483648 <= v[0] and v[0] <= 2147483647 and len(v[1]) <= 255", "result[0][0] == v[0] and result[0][1] == v[1]", exc=None)
 
+    # helpers.BitField (the packing core of se.BitField): exact over 64-bit vectors, schema instances
+    import hippolyzer.lib.base.helpers as helpers
+    BF_RT = "def bf_roundtrip(bf, a, b, c):\n    return bf.unpack(bf.pack({'a': a, 'b': b, 'c': c}))\n"
+    BF_REJ = "def bf_pack(bf, a, b, c):\n    return bf.pack({'a': a, 'b': b, 'c': c})\n"
+    for shift in (True, False):
+        for widths in ((4, 4, 8), (1, 7, 24), (5, 3, 8)):
+            bf = helpers.BitField({"a": widths[0], "b": widths[1], "c": widths[2]}, shift=shift)
+            nm = f"BitField{widths}/shift={shift}"
+            offs = (0, widths[0], widths[0] + widths[1])
+            if shift:
+                dom = " and ".join(f"0 <= {v} and {v} <= {2 ** w - 1}" for v, w in zip("abc", widths))
+            else:
+                dom = " and ".join(f"0 <= {v} and {v} <= {(2 ** w - 1) << o} and ({v} & {((2 ** w - 1) << o)}) == {v}" for v, w, o in zip("abc", widths, offs))
+            bcommon = dict(relpath="hippolyzer/lib/base/helpers.py", cls=None, prop=PID, engine="fp", frame=None, param_values={"bf": bf},
+                           params={"a": "Raw:32:u", "b": "Raw:32:u", "c": "Raw:32:u"}, param_names=["a", "b", "c"])
+            reg.add_fn(FnContract(key=f"C08:{nm}/roundtrip", qualname="bf_roundtrip", source=BF_RT, requires=[dom],
+                                  ensures=["result['a'] == a and result['b'] == b and result['c'] == c"], **bcommon))
+            # a member wider than its field is rejected rather than bleeding into its neighbours
+            reg.add_fn(FnContract(key=f"C08:{nm}/reject", qualname="bf_pack", source=BF_REJ,
+                                  raises={"ValueError": f"not ({dom})"}, ensures=["True"], **bcommon))
+
     # BufferReader ADT
     rd = dict(relpath=SE_REL, cls="BufferReader", prop=PID)
     reg.add_fn(FnContract(key="hippolyzer.lib.base.serialization:BufferReader.read_bytes", qualname="BufferReader.read_bytes",
